@@ -183,6 +183,36 @@ def rule_d(ctx):
     ctx.floor(R, 4)
 
 
+def rule_f(ctx, E):
+    R = "C10.f"
+    ctx.rule(R, "results are not shared with the correction object: the array returned by correct_array of every concrete correction neither "
+             "aliases an attribute of self nor is stored into one (a buffer kept on the object and handed out again makes every slice of a "
+             "series, and every earlier result, the same array)")
+    m = ctx.model
+    base, subs = concrete_corrections(m)
+    n = 0
+    for k in subs:
+        ca = m.method(k, "correct_array")
+        if ca is None or ca.cls is base:
+            continue
+        n += 1
+        ctx.instance(R)
+        amap = E.alias.get(ca, {})
+        rets = [r for r in ast.walk(ca.node) if isinstance(r, ast.Return) and r.value is not None]
+        shared = []
+        for r in rets:
+            roots = E.roots(r.value, ca, amap)
+            if ca.params and ca.params[0] in roots:
+                shared.append(f"`{norm(r)[:60]}` may alias state of self")
+            if isinstance(r.value, ast.Name):
+                for s in ast.walk(ca.node):
+                    if isinstance(s, ast.Assign) and isinstance(s.value, ast.Name) and s.value.id == r.value.id and any(
+                            isinstance(b, ast.Attribute) and isinstance(b.value, ast.Name) and b.value.id == ca.params[0] for t in s.targets for b in [t if not isinstance(t, ast.Subscript) else t.value]):
+                        shared.append(f"`{norm(s)[:60]}` keeps the returned array on the object")
+        ctx.ob(R, ca.qname, f"{k.name}.correct_array returns an array that is not shared with the object", not shared, "; ".join(shared[:3]), ca.node)
+    ctx.floor(R, 10)
+
+
 def rule_e(ctx):
     R = "C10.e"
     ctx.rule(R, "construction-time corrections run in order, in place: Image.__init__ iterates `transformations` in list order and calls "
@@ -208,3 +238,4 @@ def run(ctx):
     rule_c(ctx, f, img_b)
     rule_d(ctx)
     rule_e(ctx)
+    rule_f(ctx, E)
